@@ -134,10 +134,10 @@ def run_suite(name: str, seed: int, n_hist: int, struct: bool, oracles=(), max_o
         hists = list(corpus or [])
         for i in range(n_hist):
             kw = dict(gen_kw or {})
-            if gen is gen_history and "force" not in kw and i < 14 and n_hist >= 100:
+            if gen is gen_history and "force" not in kw and i < 16 and n_hist >= 100:
                 kw["force"] = ("wide", "wide", "wide", "big", "big", "big", "big255", "big255", "big255", "offset", "offset", "offset",
-                               "offset", "offset")[i]
-                if kw["force"] == "offset" and "refine" not in kw.get("allow", ("refine",)):
+                               "offset", "offset", "big2", "big2")[i]
+                if kw["force"] in ("offset", "big2") and "refine" not in kw.get("allow", ("refine",)):
                     kw.pop("force")
             h = gen(rng, max_ops=max_ops, max_rows=max_rows, **kw)
             if per_insert_every and i % per_insert_every == 0:
